@@ -135,7 +135,8 @@ class C20(Oracle):
         # -- caller-owned containers
         ck = st.extra.get('container')
         if ck is not None and st.outcome == 'ok' and isinstance(w.containers[ck][0], np.ndarray):
-            tgt = st.ret if st.op['op'] == 'new_cont' else (w.slots[st.dest].obj if st.dest is not None else None)
+            tgt = st.ret if st.op['op'] == 'new_cont' or (st.op['op'] == 'arith' and st.dest is None) \
+                else (w.slots[st.dest].obj if st.dest is not None else None)
             tv = getattr(tgt, 'val', None)
             if isinstance(tv, np.ndarray) and tv.dtype.kind != 'O' and np.shares_memory(tv, w.containers[ck][0]):
                 w.violation('C20', 'aliases-caller-array', st, {'container': ck}, culprit)
